@@ -32,7 +32,8 @@ def malformed_texts(rng, n):
 
 VOCAB = [b"2a3", b"1d0", b"1c1", b"1,2c3,4", b"0a1", b"< x", b"> y", b"---", b"\\ No newline at end of file", b"--- f", b"+++ f", b"*** f",
          b"@@ -1 +1 @@", b"@@ -1,2 +1,0 @@", b"@@ -0,0 +1 @@", b" c", b"+p", b"-m", b"***************", b"*** 1 ****", b"*** 1,2 ****",
-         b"--- 1 ----", b"--- 1,2 ----", b"! b", b"diff --git a/f b/f", b""]
+         b"--- 1 ----", b"--- 1,2 ----", b"! b", b"diff --git a/f b/f", b"",
+         b"Index: f (revision 2)", b"Prereq: v1 v2"]
 
 
 def small_scope_streams(rng, maxlen, sample=None):
@@ -165,6 +166,19 @@ def run_c08(run_, rng, tier):
     ]:
         o = dict(o); o["i"] = "p.diff"; o.setdefault("p", 1)
         scns.append(dict(tree={"f": ("R", 0o644, b"a\nb\nc\n"), "p.diff": ("R", 0o644, t)}, opts=o, umask=0o022, abs_paths=True))
+    # targets that are not regular files: a FIFO nobody writes to, an endless device behind a symbolic link, a directory
+    for kind in ("fifo", "zero", "dir", "fifo-o", "fifo-R"):
+        for t in (b"--- a/f\n+++ b/f\n@@ -1 +1 @@\n-a\n+A\n", b"diff --git a/f b/f\n--- a/f\n+++ b/f\n@@ -1 +1 @@\n-a\n+A\n", b"Index: f\n1c1\n< a\n---\n> A\n",
+                  b"*** a/f\n--- b/f\n***************\n*** 1 ****\n! a\n--- 1 ----\n! A\n"):
+            tree = {"p.diff": ("R", 0o644, t), "f": {"fifo": ("O", 0o644, b""), "zero": ("S", 0, b"/dev/zero"), "dir": ("D", 0o755, b"")}[kind.split("-")[0]]}
+            o = {"i": "p.diff", "p": 1}
+            if kind == "fifo-o":
+                o["o"] = "out"
+            if kind == "fifo-R":
+                o["R"] = 1
+            if rng.random() < 0.5:
+                o["file"] = "f"
+            scns.append(dict(tree=tree, opts=o, umask=0o022, no_model=(kind == "zero")))
     t0 = time.time()
     results = run_many(exe, scns, timeout=10)
     bad = []
@@ -178,7 +192,7 @@ def run_c08(run_, rng, tier):
     mism = []
     for i, (s, r, ml) in enumerate(zip(scns, results, model)):
         mc, _, _ = l2.model_canon(ml)
-        if not r.get("timed_out") and not s.get("abs_paths") and mc != l2.impl_line(r):
+        if not r.get("timed_out") and not s.get("abs_paths") and not s.get("no_model") and mc != l2.impl_line(r):
             mism.append((i, "L2", dict(scenario=describe(s), model=mc[:1500], impl_line=l2.impl_line(r)[:1500], stdout=r["stdout"].decode("latin-1")[-500:], stderr=r["stderr"].decode("latin-1")[-300:])))
     return bad, mism
 
